@@ -6,6 +6,8 @@ from ..core import AnalysisError, u, walk_local, enclosing_stmt
 from ..lib import (construct, std_facts, def_of, facts_at, calls_of_node,
                    in_subtree, single_reaching_value, returns_of)
 
+from .c19 import import_aliases
+
 SAN = 'config._is_literally_representable'
 
 
@@ -186,3 +188,4 @@ def run(ctx):
   ctx.check(bool(rs) and bool(join), 'C06.import-syntax', construct(fm),
             'from-imports are split at the last dot when printed and joined with a dot when parsed',
             'the from-import split/join no longer mirror each other', fm.loc(), instance='from-split')
+  import_aliases(ctx, 'C06.import-aliases')
